@@ -3,5 +3,5 @@ CONSTANT MaxW = 3
 SPECIFICATION ThoroughSpec
 INVARIANTS Paired NoDup AllDelivered InOrder1 RecordsPaired RecordsInOrder SetsAreWhatReaderProduced
 INVARIANTS ErrOnce ErrNoLater ErrDrain InitFailuresSurface ClosedOnlyAfterInitFailure PerRecordErrorsReturned
-INVARIANTS BoundedSets ReaderAhead RecycledOnly
+INVARIANTS BoundedSets ReaderAhead RecycledOnly CountAbstraction
 PROPERTY Termination
